@@ -303,6 +303,13 @@ class MemSock(object):
         kind = SEND_ALTS[alt]
         if (self.tx.eof or self.dead) and kind not in ("reset",):
             kind = "epipe"
+        if getattr(w, "epipe_after_peer_close", False) and \
+                kind not in ("reset",):
+            # opt-in: the peer has closed its socket, writing to it fails
+            peer = w.ssock if self is getattr(w, "csock", None) else \
+                getattr(w, "csock", None)
+            if peer is not None and peer.closed:
+                kind = "epipe"
         if kind in ("epipe", "reset"):
             # the connection is gone in both directions: what was already
             # received stays readable, then EOF; the peer sees EOF too
